@@ -25,7 +25,19 @@ META = dict(
 def _mk(ctx, backlog, d):
     bus = ctx.bus('A')
 
+    async def hC(h, ev):
+        await h.sleep(d)
+        return 'c'
+
     async def hP(h, ev):
+        if ctx.cfg.get('await_child'):
+            # the in-flight handler is processing an awaited child inline when stop() / the cancellation arrives
+            from ..events import C
+            ctx.on(bus, C, 'hC', hC) if 'hC' not in [n for (_, _, n, _) in ctx.registered] else None
+            c = h.dispatch(bus, ctx.ev(C, 'C1', event_timeout=30.0))
+            await h.wait(c)
+            await h.sleep(Exact('1/5'))
+            return 'p'
         try:
             await h.sleep(d if not ctx.cfg.get('warm') else 5)
         finally:
@@ -185,7 +197,8 @@ async def _await(t):
     return await t
 
 
-TEMPLATES = {'s1.stop': t_stop, 's1.cancel': t_cancel}
+from ..scenlib import t_tree
+TEMPLATES = {'s1.stop': t_stop, 's1.cancel': t_cancel, 'tree': t_tree}
 
 
 def jobs(tier):
@@ -199,6 +212,11 @@ def jobs(tier):
     out.append(Job('C16', 's1.cancel', t_cancel, dict(mode='step', kmax=40 if tier == 'quick' else 80), max_paths=4000))
     out.append(Job('C16', 's1.cancel', t_cancel, dict(mode='step', warm=True, kmax=25), max_paths=4000))
     out.append(Job('C16', 's1.stop', t_stop, dict(mode='time', timeout=None, backlog=1, slow_to_die=True), witnesses=('stop mid-handler',)))
+    out.append(Job('C16', 's1.stop', t_stop, dict(mode='time', timeout=None, backlog=1, await_child=True), witnesses=('stop mid-handler',)))
+    out.append(Job('C16', 's1.cancel', t_cancel, dict(mode='time', await_child=True)))
+    from .. import scenlib as S
+    from ._common import mk
+    out += mk('C16', 'three_bus_stop', S.three_bus_stop(), witnesses=('stop returned',))
     if tier == 'thorough':
         out.append(Job('C16', 's1.stop', t_stop, dict(mode='time', timeout='1/2', backlog=2, clear=True)))
         out.append(Job('C16', 's1.stop', t_stop, dict(mode='step', timeout='1/2', backlog=1, kmax=80), max_paths=6000))
